@@ -271,14 +271,15 @@ def h_build(L, name_n, steps, hook, type_string=None):
 
 
 def queries(tier):
-    th = tier == 'thorough'
+    deep = 1 if tier == 'thorough' else 0      # the former thorough bounds are the quick bounds now
+    th = True
     qs = []
     H = lambda n, nm='x': ('hole', nm, n)
     hooks = [[], [('fail',)], [('name', '')], [('name', H(1))], [('ns', H(2))], [('ver', H(1))], [('sub', H(2))],
-             [('qual', 'z', '')], [('qual', H(1, 'k'), H(1, 'v'))], [('qual', 'checksum', H(3 if th else 2))], [('qual', 'checksum', 'B:0A,a:')],
+             [('qual', 'z', '')], [('qual', H(1, 'k'), H(1, 'v'))], [('qual', 'checksum', H(3 + deep))], [('qual', 'checksum', 'B:0A,a:')],
              [('qual', 'k', ''), ('ver', H(1))], [('name', H(1)), ('fail',)]]
     inputs = [['pkg:', H(3 if th else 2, 'h'), '/n'], ['pkg:custom/', H(2, 'h')], ['pkg:custom/ns/n@1?k=', H(1, 'h'), '#s'], ['pkg:custom/n?', H(1, 'h'), '=', H(1, 'g')],
-              ['pkg:', H(4 if th else 3, 'h')]]
+              ['pkg:', H(4 + deep, 'h')]]
     for conv_ok in (True, False):
         for hi, hook in enumerate(hooks):
             for parts in inputs:
@@ -291,7 +292,7 @@ def queries(tier):
             qs.append(Query('build name=⟦1⟧ %s hook=%s' % ([s[0] for s in steps], hook), h_build, {'name_n': 1, 'steps': steps, 'hook': hook},
                             bound='builder with free name and arguments; hook edits %s' % (hook,)))
     qs.append(Query('build name=⟦0⟧ hook=name⟦1⟧', h_build, {'name_n': 0, 'steps': [], 'hook': [('name', H(1))]}, bound='empty name repaired by the hook'))
-    for n in lens(3 if th else 2):
+    for n in lens(3 + deep):
         qs.append(Query('build type_string=⟦%d⟧' % n, h_build, {'name_n': 1, 'steps': [], 'hook': [], 'type_string': H(n, 't')}, bound='user type reporting every %d-byte type string' % n))
     return qs
 
